@@ -472,6 +472,9 @@ def c04_programs(seed, tier):
     for f in IM_STR:
         out.append(prog(f"only_im_{f}", [new("g"), image([rep("visual", 5)], setters=[setter(f, f"only-{f}")]), FIN]))
     out.append(prog("only_coord", [new("g"), {"op": "coord", "v": "c"}, FIN]))
+    # XML sections beyond what the library's own reader accepts (10 MiB): finalize must refuse, or the file must open
+    out.append(prog("big_xml_3MB", [new("g"), {"op": "coord", "v": {"rep": "0123456789", "n": 300000}}, FIN], big=True))
+    out.append(prog("big_xml_11MB", [new("g"), {"op": "coord", "v": {"rep": "0123456789", "n": 1100000}}, FIN], big=True))
     out.append(prog("only_creation", [new("g"), {"op": "creation", "v": dt(0.0, False)}, FIN]))
     # setters called twice and reset
     out.append(prog("set_twice_reset", [new("g"), {"op": "coord", "v": "first"}, {"op": "coord", "v": None}, {"op": "creation", "v": dt(1.0)}, {"op": "creation", "v": None},
